@@ -131,6 +131,17 @@ fn guard<T>(default: T, f: impl FnOnce() -> T) -> T {
         }
     }
 }
+/// like `guard`, for the database round trip only: `from_bytes` unwraps a parse of the object's own bytes, so a
+/// panic there is a C20 matter (reported as x_db=panic) and must not hide the result tokens from the other checks
+fn db_guard(f: impl FnOnce() -> String) -> String {
+    match catch_unwind(AssertUnwindSafe(f)) {
+        Ok(v) => v,
+        Err(_) => {
+            ARMED.store(false, Ordering::Relaxed);
+            " x_db=panic".to_string()
+        }
+    }
+}
 const PW: &str = "18446744073709551615,18446744073709551615";
 
 // ---------- recording visitor ----------
@@ -642,10 +653,12 @@ fn run_case(entry: &str, inp: &[u8], param: u64, brk: i64) -> String {
                         if bitcoin::consensus::serialize(&conv) != view { return Err("reserialize".into()); }
                         Ok(())
                     }));
-                    let ab = <bsl::OutPoint as RedbValue>::as_bytes(x);
-                    let same = ab.as_ptr() == x.as_ref().as_ptr() && ab.len() == x.as_ref().len();
-                    let fb = <bsl::OutPoint as RedbValue>::from_bytes(ab);
-                    write!(s, " x_db={},{},{}", same as u8, (fb == *x) as u8, <bsl::OutPoint as RedbValue>::fixed_width().map(|v| v as i64).unwrap_or(-1)).unwrap();
+                    s.push_str(&db_guard(|| {
+                        let ab = <bsl::OutPoint as RedbValue>::as_bytes(x);
+                        let same = ab.as_ptr() == x.as_ref().as_ptr() && ab.len() == x.as_ref().len();
+                        let fb = <bsl::OutPoint as RedbValue>::from_bytes(ab);
+                        format!(" x_db={},{},{}", same as u8, (fb == *x) as u8, <bsl::OutPoint as RedbValue>::fixed_width().map(|v| v as i64).unwrap_or(-1))
+                    }));
                     s
                 }
                 Err(e) => format!("{} x_alloc={}{}", res_err(&e), allocs, rb_tokens::<bitcoin::OutPoint>(inp, None, |_| Ok(()))),
@@ -693,10 +706,12 @@ fn run_case(entry: &str, inp: &[u8], param: u64, brk: i64) -> String {
                         if r.script_pubkey.as_bytes() != &bscript[..] || !bs_same { return Err("as_bitcoin_script".into()); }
                         Ok(())
                     }));
-                    let ab = <bsl::TxOut as RedbValue>::as_bytes(x);
-                    let same = ab.as_ptr() == x.as_ref().as_ptr() && ab.len() == x.as_ref().len();
-                    let fb = <bsl::TxOut as RedbValue>::from_bytes(ab);
-                    write!(s, " x_db={},{},{}", same as u8, (fb == *x) as u8, <bsl::TxOut as RedbValue>::fixed_width().map(|v| v as i64).unwrap_or(-1)).unwrap();
+                    s.push_str(&db_guard(|| {
+                        let ab = <bsl::TxOut as RedbValue>::as_bytes(x);
+                        let same = ab.as_ptr() == x.as_ref().as_ptr() && ab.len() == x.as_ref().len();
+                        let fb = <bsl::TxOut as RedbValue>::from_bytes(ab);
+                        format!(" x_db={},{},{}", same as u8, (fb == *x) as u8, <bsl::TxOut as RedbValue>::fixed_width().map(|v| v as i64).unwrap_or(-1))
+                    }));
                     s
                 }
                 Err(e) => format!("{} x_alloc={}{}", res_err(&e), allocs, rb_tokens::<bitcoin::TxOut>(inp, None, |_| Ok(()))),
@@ -862,10 +877,12 @@ fn run_txouts(inp: &[u8], brk: i64) -> String {
                 write!(s, " x_adapt={}", adapt).unwrap();
             }
             // database encoding (C20)
-            let ab = <bsl::TxOuts as RedbValue>::as_bytes(x);
-            let same = ab.as_ptr() == x.as_ref().as_ptr() && ab.len() == x.as_ref().len();
-            let fb = <bsl::TxOuts as RedbValue>::from_bytes(ab);
-            write!(s, " x_db={},{},{}", same as u8, (fb == *x) as u8, <bsl::TxOuts as RedbValue>::fixed_width().map(|v| v as i64).unwrap_or(-1)).unwrap();
+            s.push_str(&db_guard(|| {
+                let ab = <bsl::TxOuts as RedbValue>::as_bytes(x);
+                let same = ab.as_ptr() == x.as_ref().as_ptr() && ab.len() == x.as_ref().len();
+                let fb = <bsl::TxOuts as RedbValue>::from_bytes(ab);
+                format!(" x_db={},{},{}", same as u8, (fb == *x) as u8, <bsl::TxOuts as RedbValue>::fixed_width().map(|v| v as i64).unwrap_or(-1))
+            }));
             s
         }),
         Err(e) => format!("{}{}", res_err(e), rec.events()),
@@ -949,13 +966,15 @@ fn run_transaction(inp: &[u8], brk: i64) -> String {
             let (a, b, c) = x.txid_preimage();
             let inside = |p: &[u8]| p.is_empty() || win(inp, p).0 != OUTSIDE;
             write!(s, " x_pre_inside={}", (inside(a) && inside(b) && inside(c)) as u8).unwrap();
-            let ab = <bsl::Transaction as RedbValue>::as_bytes(x);
-            let same = ab.as_ptr() == x.as_ref().as_ptr() && ab.len() == x.as_ref().len();
-            let fb = <bsl::Transaction as RedbValue>::from_bytes(ab);
-            write!(s, " x_db={},{},{}", same as u8, (fb == *x) as u8, <bsl::Transaction as RedbValue>::fixed_width().map(|v| v as i64).unwrap_or(-1)).unwrap();
-            // the value decoded from the database representation exposes the same derived quantities
-            write!(s, " x_dbtx={},{},{}", (fb.weight() == x.weight()) as u8, (fb.txid_preimage() == x.txid_preimage()) as u8,
-                   (fb.txid() == x.txid() && fb.txid_sha2() == x.txid_sha2()) as u8).unwrap();
+            s.push_str(&db_guard(|| {
+                let ab = <bsl::Transaction as RedbValue>::as_bytes(x);
+                let same = ab.as_ptr() == x.as_ref().as_ptr() && ab.len() == x.as_ref().len();
+                let fb = <bsl::Transaction as RedbValue>::from_bytes(ab);
+                // the value decoded from the database representation exposes the same derived quantities
+                format!(" x_db={},{},{} x_dbtx={},{},{}", same as u8, (fb == *x) as u8, <bsl::Transaction as RedbValue>::fixed_width().map(|v| v as i64).unwrap_or(-1),
+                        (fb.weight() == x.weight()) as u8, (fb.txid_preimage() == x.txid_preimage()) as u8,
+                        (fb.txid() == x.txid() && fb.txid_sha2() == x.txid_sha2()) as u8)
+            }));
             s
         }),
         Err(e) => format!("{}{}", res_err(e), rec.events()),
@@ -1191,6 +1210,39 @@ fn run_cache(cap: u64, ops: &[&str]) -> String {
     s
 }
 
+// ---------- a cache larger than 4 GiB (C06/C11/C13 beyond the 32-bit range: about 4.2 GB resident for a few seconds) ----------
+fn run_bigcache() -> String {
+    let cap = (1usize << 32) + 4096;
+    let mut c: SliceCache<u64> = SliceCache::new(cap);
+    let chunk = 64usize << 20;
+    let mut big = vec![0u8; chunk];
+    for k in 0..64u64 {
+        big[0] = k as u8 + 1;
+        big[chunk - 1] = 0xA0 ^ k as u8;
+        match c.insert(k, &big) {
+            Ok(0) => {}
+            other => return format!(" x_bigcache=fill{}:{:?}", k, other.map_err(|e| format!("{:?}", e))),
+        }
+    }
+    // the write position is now exactly 2^32
+    let small = [0xEEu8; 16];
+    if !matches!(c.insert(1000, &small), Ok(0)) { return " x_bigcache=insert_beyond_4g".into(); }
+    if c.get(&1000) != Some(&small[..]) { return " x_bigcache=get_beyond_4g".into(); }
+    for k in [0u64, 1, 31, 63] {
+        match c.get(&k) {
+            Some(v) if v.len() == chunk && v[0] == k as u8 + 1 && v[chunk - 1] == 0xA0 ^ k as u8 => {}
+            _ => return format!(" x_bigcache=get{}", k),
+        }
+    }
+    if c.len() != 65 || c.full() { return format!(" x_bigcache=len{}_full{}", c.len(), c.full() as u8); }
+    // wrap: a 64 MiB value no longer fits in the 4080-byte tail; it evicts key 0 (and only key 0) at the start
+    big[0] = 0x77;
+    if !matches!(c.insert(2000, &big), Ok(1)) { return " x_bigcache=wrap_count".into(); }
+    if c.get(&0).is_some() || c.get(&1).map(|v| v[0]) != Some(2) || c.get(&2000).map(|v| v[0]) != Some(0x77) { return " x_bigcache=wrap_state".into(); }
+    if c.get(&1000) != Some(&small[..]) || !c.full() || c.len() != 65 { return " x_bigcache=wrap_tail".into(); }
+    " x_bigcache=ok".into()
+}
+
 // ---------- redb round trip through an actual database (C20) ----------
 fn run_redb(kind: &str, inp: &[u8]) -> String {
     let dir = std::env::var("VERIF_TMP").unwrap_or_else(|_| "/verif/.build/tmp".to_string());
@@ -1274,6 +1326,10 @@ fn main() {
                     Ok(s) => writeln!(out, "{}{}", id, s).unwrap(),
                     Err(_) => writeln!(out, "{} panic=", id).unwrap(),
                 }
+            }
+            "B" => {
+                let r = catch_unwind(AssertUnwindSafe(run_bigcache));
+                writeln!(out, "{}{}", f[1], r.unwrap_or_else(|_| " x_bigcache=panic".to_string())).unwrap();
             }
             "O" => {
                 // outpoint key order
